@@ -6,6 +6,7 @@ import (
 	"io"
 	"net/http"
 	"os"
+	"path/filepath"
 	"strconv"
 	"strings"
 	"sync"
@@ -613,14 +614,50 @@ func (w *c34World) drainAfterFinal(ch chan relaycore.RelayStateSendInstructions)
 // consumerStuckInUpdateBatch recognises the hang where the machine has emitted its final
 // instruction and returned, and the consumer blocks forever in UpdateBatch because nobody drains
 // batchUpdate any more.
+// c34MachineLines locates, in the tree under test, the line span of UpdateBatch and the line of the
+// go statement that starts the machine's main loop (leftover tasks are reported as file:line).
+var c34Lines struct {
+	once           sync.Once
+	lo, hi, goLine int
+}
+
+func c34MachineLines() (lo, hi, goLine int) {
+	c34Lines.once.Do(func() {
+		b, err := os.ReadFile(filepath.Join(os.Getenv("VERIF_REPO"), "protocol/relaycore/unified_relay_state_machine.go"))
+		if err != nil {
+			return
+		}
+		inGet := false
+		for i, line := range strings.Split(string(b), "\n") {
+			n := i + 1
+			switch {
+			case strings.HasPrefix(line, "func (sm *UnifiedRelayStateMachine) UpdateBatch("):
+				c34Lines.lo = n
+			case c34Lines.lo != 0 && c34Lines.hi == 0 && line == "}":
+				c34Lines.hi = n
+			case strings.HasPrefix(line, "func (sm *UnifiedRelayStateMachine) GetRelayTaskChannel("):
+				inGet = true
+			case inGet && c34Lines.goLine == 0 && strings.TrimSpace(line) == "go func() {":
+				c34Lines.goLine = n
+			}
+		}
+	})
+	return c34Lines.lo, c34Lines.hi, c34Lines.goLine
+}
+
 func (w *c34World) consumerStuckInUpdateBatch(s *simrt.Sched) bool {
 	stuck := false
 	mainAlive := false
 	for _, l := range s.Leftover() {
-		if strings.Contains(l, ":consumer:") && strings.Contains(l, "unified_relay_state_machine.go:409") {
-			stuck = true
+		lo, hi, goLine := c34MachineLines()
+		if strings.Contains(l, ":consumer:") {
+			for n := lo; n <= hi; n++ {
+				if strings.HasSuffix(l, fmt.Sprintf("unified_relay_state_machine.go:%d", n)) {
+					stuck = true
+				}
+			}
 		}
-		if strings.Contains(l, "unified_relay_state_machine.go:239:") {
+		if strings.Contains(l, fmt.Sprintf("unified_relay_state_machine.go:%d:", goLine)) {
 			mainAlive = true
 		}
 	}
